@@ -150,96 +150,102 @@ def run(ctx):
 
     # ---- O1 -----------------------------------------------------------------------
     ctx.rule("O1", "insertions and name writes are dominated by the existence test raising FilterAlreadyExists")
-    n1 = 0
-    for op in OPS:
-        f = m[op]
-        cfg = ctx.cfg(f)
-        muts, ev = filters_mutations(f)
-        for kind, st, node in muts:
-            if kind in ("list:+=", "list:append", "list:extend") or kind == "entry:name":
-                n1 += 1
+    if not report_ops(ctx, R, ("O1",)):
+        n1 = 0
+        for op in OPS:
+            f = m[op]
+            cfg = ctx.cfg(f)
+            muts, ev = filters_mutations(f)
+            for kind, st, node in muts:
+                if kind in ("list:+=", "list:append", "list:extend") or kind == "entry:name":
+                    n1 += 1
 
-                def unique(fc, kind=kind):
-                    c, pol = fact_call(fc)
-                    if c is not None and call_name(c) == "filter_exists":
-                        return pol is False
-                    e, p2 = fact_atom(fc)
-                    cp = cmp_parts(e)
-                    if kind == "entry:name" and cp and cp[1] in ("Eq", "NotEq") and "name" in norm(cp[0]) and "name" in norm(cp[2]):
-                        return (cp[1] == "Eq") == p2  # new == old: renaming onto itself
-                    return False
-                raises = [r for r in walk_no_nested(f.node) if isinstance(r, ast.Raise) and raise_name(r) == "FilterAlreadyExists"]
-                if raises and all(cfg.guarded(x, unique) for x in cfg.nodes_for(st)):
-                    ctx.holds("O1", "%s: %s after the uniqueness test" % (f.qualname, norm(st)[:50]))
+                    def unique(fc, kind=kind):
+                        c, pol = fact_call(fc)
+                        if c is not None and call_name(c) == "filter_exists":
+                            return pol is False
+                        e, p2 = fact_atom(fc)
+                        cp = cmp_parts(e)
+                        if kind == "entry:name" and cp and cp[1] in ("Eq", "NotEq") and "name" in norm(cp[0]) and "name" in norm(cp[2]):
+                            return (cp[1] == "Eq") == p2  # new == old: renaming onto itself
+                        return False
+                    raises = [r for r in walk_no_nested(f.node) if isinstance(r, ast.Raise) and raise_name(r) == "FilterAlreadyExists"]
+                    if raises and all(cfg.guarded(x, unique) for x in cfg.nodes_for(st)):
+                        ctx.holds("O1", "%s: %s after the uniqueness test" % (f.qualname, norm(st)[:50]))
+                    else:
+                        ctx.violation("O1", f, "unguarded:%s" % kind, "%s can execute `%s` without the name having been tested for uniqueness"
+                                      % (f.qualname, norm(st)[:50]), node=st,
+                                      witness="two filters with the same name; getfilter/removefilter then address only the first")
+        ctx.need("O1", "insertions / renames", n1, 3)
+        # the uniqueness test looks at the list as it is now: nothing it reads is a copy that an edit could leave behind
+        fe = m["filter_exists"]
+        fsn = fe.params[0]
+        stale = [a for a in walk_no_nested(fe.node) if isinstance(a, ast.Attribute) and isinstance(a.value, ast.Name) and a.value.id == fsn
+                 and a.attr != "filters" and a.attr not in R.m and not isinstance(getattr(a, "_parent", None), ast.Call)]
+        reads_list = any(isinstance(a, ast.Attribute) and a.attr == "filters" for a in walk_no_nested(fe.node))
+        if stale:
+            ctx.violation("O1", fe, "uniqueness-from-cache:%s" % stale[0].attr, "filter_exists answers from self.%s, a copy of the names kept beside the "
+                          "list: a rename or a remove followed by an add leaves it out of date" % stale[0].attr, node=stale[0],
+                          witness="add a, add b, remove a, add b: two filters named b")
+        elif reads_list:
+            ctx.holds("O1", "filter_exists reads the filter list itself")
+        else:
+            ctx.violation("O1", fe, "uniqueness-not-from-list", "filter_exists does not read the filter list", node=fe.node)
+        # the name tested for uniqueness is the (normalised) name that is stored
+        for op in ("addfilter", "updatefilter", "replacefilter"):
+            f = m[op]
+            cfg = ctx.cfg(f)
+            stored = []
+            for st in walk_no_nested(f.node):
+                if isinstance(st, ast.Assign) and any(isinstance(t, ast.Subscript) and const_value(ctx.program, f, t.slice) == "name" for t in st.targets):
+                    stored.append((st, st.value))
+                if isinstance(st, ast.AugAssign) and "filters" in norm(st.target):
+                    for d in ast.walk(st.value):
+                        if isinstance(d, ast.Dict):
+                            for k, v in zip(d.keys, d.values):
+                                if k is not None and const_value(ctx.program, f, k) == "name":
+                                    stored.append((st, v))
+            tests = [c for c in walk_no_nested(f.node) if isinstance(c, ast.Call) and call_name(c) == "filter_exists" and c.args]
+            for st, v in stored:
+                if not isinstance(v, ast.Name):
+                    ctx.violation("O1", f, "stored-name-computed", "%s stores the name %s, which is not the variable tested for uniqueness" % (f.qualname, norm(v)),
+                                  node=st, witness="a name given as bytes is tested undecoded but stored decoded: the collision with an existing filter goes unnoticed")
+                    continue
+                same = [c for c in tests if isinstance(c.args[0], ast.Name) and c.args[0].id == v.id]
+                # no re-binding of that variable between the test and the store
+                rebinds = [a for a in walk_no_nested(f.node) if isinstance(a, ast.Assign) and any(isinstance(t, ast.Name) and t.id == v.id for t in a.targets)]
+                late = [a for a in rebinds for c in same if a.lineno > c.lineno and a.lineno <= st.lineno]
+                norm_calls = [a for a in rebinds if isinstance(a.value, ast.Call) and "unicode" in (call_name(a.value) or "")]
+                if same and not late and (norm_calls or v.id not in f.params):
+                    ctx.holds("O1", "%s: `%s` is normalised, tested for uniqueness and stored" % (f.qualname, v.id))
                 else:
-                    ctx.violation("O1", f, "unguarded:%s" % kind, "%s can execute `%s` without the name having been tested for uniqueness"
-                                  % (f.qualname, norm(st)[:50]), node=st,
-                                  witness="two filters with the same name; getfilter/removefilter then address only the first")
-    ctx.need("O1", "insertions / renames", n1, 3)
-    # the uniqueness test looks at the list as it is now: nothing it reads is a copy that an edit could leave behind
-    fe = m["filter_exists"]
-    fsn = fe.params[0]
-    stale = [a for a in walk_no_nested(fe.node) if isinstance(a, ast.Attribute) and isinstance(a.value, ast.Name) and a.value.id == fsn
-             and a.attr != "filters" and a.attr not in R.m and not isinstance(getattr(a, "_parent", None), ast.Call)]
-    reads_list = any(isinstance(a, ast.Attribute) and a.attr == "filters" for a in walk_no_nested(fe.node))
-    if stale:
-        ctx.violation("O1", fe, "uniqueness-from-cache:%s" % stale[0].attr, "filter_exists answers from self.%s, a copy of the names kept beside the "
-                      "list: a rename or a remove followed by an add leaves it out of date" % stale[0].attr, node=stale[0],
-                      witness="add a, add b, remove a, add b: two filters named b")
-    elif reads_list:
-        ctx.holds("O1", "filter_exists reads the filter list itself")
-    else:
-        ctx.violation("O1", fe, "uniqueness-not-from-list", "filter_exists does not read the filter list", node=fe.node)
-    # the name tested for uniqueness is the (normalised) name that is stored
-    for op in ("addfilter", "updatefilter", "replacefilter"):
-        f = m[op]
-        cfg = ctx.cfg(f)
-        stored = []
-        for st in walk_no_nested(f.node):
-            if isinstance(st, ast.Assign) and any(isinstance(t, ast.Subscript) and const_value(ctx.program, f, t.slice) == "name" for t in st.targets):
-                stored.append((st, st.value))
-            if isinstance(st, ast.AugAssign) and "filters" in norm(st.target):
-                for d in ast.walk(st.value):
-                    if isinstance(d, ast.Dict):
-                        for k, v in zip(d.keys, d.values):
-                            if k is not None and const_value(ctx.program, f, k) == "name":
-                                stored.append((st, v))
-        tests = [c for c in walk_no_nested(f.node) if isinstance(c, ast.Call) and call_name(c) == "filter_exists" and c.args]
-        for st, v in stored:
-            if not isinstance(v, ast.Name):
-                ctx.violation("O1", f, "stored-name-computed", "%s stores the name %s, which is not the variable tested for uniqueness" % (f.qualname, norm(v)),
-                              node=st, witness="a name given as bytes is tested undecoded but stored decoded: the collision with an existing filter goes unnoticed")
-                continue
-            same = [c for c in tests if isinstance(c.args[0], ast.Name) and c.args[0].id == v.id]
-            # no re-binding of that variable between the test and the store
-            rebinds = [a for a in walk_no_nested(f.node) if isinstance(a, ast.Assign) and any(isinstance(t, ast.Name) and t.id == v.id for t in a.targets)]
-            late = [a for a in rebinds for c in same if a.lineno > c.lineno and a.lineno <= st.lineno]
-            norm_calls = [a for a in rebinds if isinstance(a.value, ast.Call) and "unicode" in (call_name(a.value) or "")]
-            if same and not late and (norm_calls or v.id not in f.params):
-                ctx.holds("O1", "%s: `%s` is normalised, tested for uniqueness and stored" % (f.qualname, v.id))
-            else:
-                ctx.violation("O1", f, "tested-name-differs", "%s tests %s for uniqueness but stores `%s`%s" % (
-                    f.qualname, [norm(c.args[0]) for c in tests], v.id, " (re-bound in between)" if late else ""), node=st,
-                    witness="a name given as bytes is tested undecoded but stored decoded: two filters end up with the same name")
-    # FilterAlreadyExists only for an operation on an existing filter
-    for op in ("updatefilter", "replacefilter"):
-        f = m[op]
-        cfg = ctx.cfg(f)
-        _, ev = filters_mutations(f)
-        pred = match_fact(f, ev)
-        for r in walk_no_nested(f.node):
-            if isinstance(r, ast.Raise) and raise_name(r) == "FilterAlreadyExists":
-                if all(cfg.guarded(x, pred) for x in cfg.nodes_for(r)):
-                    ctx.holds("O4", "%s: FilterAlreadyExists only after the filter to edit was found" % f.qualname)
-                else:
-                    ctx.violation("O4", f, "raise-before-lookup", "%s can raise FilterAlreadyExists although the filter to edit does not exist "
-                                  "(unknown names must yield False)" % f.qualname, node=r,
-                                  witness="replacefilter('nosuch', content, newname='existing') raises instead of returning False")
+                    ctx.violation("O1", f, "tested-name-differs", "%s tests %s for uniqueness but stores `%s`%s" % (
+                        f.qualname, [norm(c.args[0]) for c in tests], v.id, " (re-bound in between)" if late else ""), node=st,
+                        witness="a name given as bytes is tested undecoded but stored decoded: two filters end up with the same name")
+        # FilterAlreadyExists only for an operation on an existing filter
+        for op in ("updatefilter", "replacefilter"):
+            f = m[op]
+            cfg = ctx.cfg(f)
+            _, ev = filters_mutations(f)
+            pred = match_fact(f, ev)
+            for r in walk_no_nested(f.node):
+                if isinstance(r, ast.Raise) and raise_name(r) == "FilterAlreadyExists":
+                    if all(cfg.guarded(x, pred) for x in cfg.nodes_for(r)):
+                        ctx.holds("O4", "%s: FilterAlreadyExists only after the filter to edit was found" % f.qualname)
+                    else:
+                        ctx.violation("O4", f, "raise-before-lookup", "%s can raise FilterAlreadyExists although the filter to edit does not exist "
+                                      "(unknown names must yield False)" % f.qualname, node=r,
+                                      witness="replacefilter('nosuch', content, newname='existing') raises instead of returning False")
 
     o2(ctx, R)
 
     # ---- O3 -----------------------------------------------------------------------
     ctx.rule("O3", "movefilter: remove + insert of the same object at index-1 (up) / index+1 (down); early exits at 0 and len-1")
+    if report_ops(ctx, R, ("O3",)):
+        _o4(ctx, R, match_fact)
+        _o6(ctx, R)
+        o5(ctx, R)
+        return
     f = m["movefilter"]
     cfg = ctx.cfg(f)
     dirp = f.params[2] if len(f.params) > 2 else None
@@ -540,6 +546,8 @@ def _o4(ctx, R, match_fact):
     m = R.m
     # ---- O4 -----------------------------------------------------------------------
     ctx.rule("O4", "every mutation is dominated by the name-match edge; the no-match exit returns False/None")
+    if report_ops(ctx, R, ("O4", "O1")):
+        return
     n4 = 0
     for op in OPS[1:]:
         f = m[op]
@@ -580,6 +588,8 @@ def o2(ctx, R):
     m = R.m
     # ---- O2 -----------------------------------------------------------------------
     ctx.rule("O2", "update/replace: no list-level mutation, no write of `enabled`; re-wrap when disabled")
+    if report_ops(ctx, R, ("O2",)):
+        return
     for op in ("updatefilter", "replacefilter"):
         f = m[op]
         cfg = ctx.cfg(f)
@@ -641,8 +651,9 @@ def o5(ctx, R):
                               witness="disable a, disable b: getfilter('b') returns a's content; a filter disabled twice is rendered twice")
     # ---- O5 -----------------------------------------------------------------------
     ctx.rule("O5", "enabled=False only with wrapping, True only with unwrapping, both under the recogniser's state guard; getters agree")
+    evaluated = report_ops(ctx, R, ("O5",))
     rec = R.isdisabled.name
-    for op, flagval, what in (("disablefilter", False, "wrap"), ("enablefilter", True, "unwrap")):
+    for op, flagval, what in ((("disablefilter", False, "wrap"), ("enablefilter", True, "unwrap")) if not evaluated else ()):
         f = m[op]
         cfg = ctx.cfg(f)
         muts, ev = filters_mutations(f)
@@ -690,6 +701,8 @@ def o5(ctx, R):
         for k, st, _ in muts:
             if k == "entry:enabled":
                 ctx.violation("O5", f, "foreign-enabled-write", "`enabled` is written in %s" % f.qualname, node=st)
+    if evaluated:
+        return
     # getters
     g = m["getfilter"]
     src = norm(g.node)
@@ -708,3 +721,248 @@ def o5(ctx, R):
         ctx.holds("O5", "recogniser: IfCommand with a FalseCommand test (what disablefilter constructs)")
     else:
         ctx.violation("O5", R.isdisabled, "recogniser-shape", "the disabled-recogniser does not test for `if false`", node=R.isdisabled.node)
+
+
+def report_ops(ctx, R, rules):
+    """Report what the evaluation over the three-filter set found for the given rules.  False when the evaluation could not be
+    carried out (the caller then applies its syntactic rule)."""
+    ev = ops_eval(ctx, R)
+    if ev is None:
+        return False
+    done = getattr(ctx, "_ops_reported", set())
+    for rule in rules:
+        if rule in done:
+            continue
+        done.add(rule)
+        mine = [x for x in ev if x[0] == rule]
+        for _, key, msg, wit in mine:
+            op = key.split(":")[0]
+            ctx.violation(rule, R.m[op], "model:%s" % key, msg, node=R.m[op].node, witness=wit)
+        if not mine:
+            ctx.holds(rule, "editing operations evaluated over the set {A, B (disabled), C} for every name and argument of interest: "
+                            "results and resulting sets equal those of an ordered, uniquely named list (%s)" % rule)
+    ctx._ops_reported = done
+    return True
+
+
+# ================================================================================ evaluation over a three-filter set
+def ops_eval(ctx, R):
+    """Finite-domain evaluation of the editing operations over the set  A (enabled), B (disabled: `if false { B0 }`), C (enabled):
+    every operation is interpreted, statement by statement, for every name (A, B, C, an unknown one) and argument of interest,
+    and what it returns / raises and the set it leaves are compared with the reference behaviour of an ordered, uniquely named list
+    whose `enabled` flag goes with the `if false` wrapping.  Returns a list of (rule, key, message) discrepancies, or None when the
+    interpreter cannot follow one of the operations (the syntactic rules then decide)."""
+    cached = getattr(ctx, "_ops_eval", "unset")
+    if cached != "unset":
+        return cached
+    from sa import fd
+    prog = ctx.program
+    m = R.m
+    selfp = m["movefilter"].params[0]
+    counter = [0]
+
+    def cmd(cls, tag, **kw):
+        return fd.Rec(cls, tag=tag, children=fd.MList(kw.get("children", [])), arguments=fd.MDict(kw.get("arguments", {})))
+
+    def fresh():
+        A0, B0, C0 = cmd("IfCommand", "A0", arguments={"test": cmd("HeaderCommand", "tA")}), \
+            cmd("IfCommand", "B0", arguments={"test": cmd("HeaderCommand", "tB")}), cmd("IfCommand", "C0", arguments={"test": cmd("HeaderCommand", "tC")})
+        W = cmd("IfCommand", "W", children=[B0], arguments={"test": cmd("FalseCommand", "false")})
+        return fd.MList([fd.MDict(name="A", description="", content=A0, enabled=True),
+                         fd.MDict(name="B", description="dB", content=W, enabled=False),
+                         fd.MDict(name="C", description="", content=C0, enabled=True)])
+
+    def shape(c):
+        if isinstance(c, fd.Rec):
+            t = c.fields.get("arguments", {}).get("test")
+            if c.cls == "IfCommand" and isinstance(t, fd.Rec) and t.cls == "FalseCommand":
+                ch = list(c.fields.get("children", []))
+                return ("wrapped", tuple(shape(x) for x in ch))
+            return ("plain", c.fields.get("tag"))
+        return ("?", repr(c))
+
+    def snapshot(fl):
+        if not isinstance(fl, fd.Const) or not isinstance(fl.v, list):
+            return None
+        out = []
+        for e_ in fl.v:
+            if not isinstance(e_, dict):
+                return None
+            out.append((e_.get("name"), e_.get("enabled"), shape(e_.get("content")), e_.get("description")))
+        return out
+
+    def class_names(e):
+        return [x.attr if isinstance(x, ast.Attribute) else (x.id if isinstance(x, ast.Name) else None)
+                for x in (e.elts if isinstance(e, ast.Tuple) else [e])]
+
+    def oracle(interp, e, name, recv, args, kw, st):
+        if name == "isinstance" and len(e.args) == 2 and args and isinstance(args[0], fd.Const) and isinstance(args[0].v, fd.Rec):
+            names = class_names(e.args[1])
+            if None not in names:
+                rc = prog.cls(args[0].v.cls)
+                mro = [c.name for c in prog.mro(rc)] if rc is not None else [args[0].v.cls]
+                return [(fd.Const(any(n in mro for n in names)), None)]
+        if name == "get_command_instance" and args and isinstance(args[0], fd.Const) and isinstance(args[0].v, str):
+            counter[0] += 1
+            return [(fd.Const(cmd(args[0].v.capitalize() + "Command", "new%d" % counter[0])), None)]
+        if isinstance(recv, fd.Const) and isinstance(recv.v, fd.Rec):
+            if name == "check_next_arg" and len(args) >= 2 and isinstance(args[0], fd.Const):
+                recv.v.fields["arguments"][args[0].v] = args[1].v if isinstance(args[1], fd.Const) else args[1]
+                return [(fd.Const(True), None)]
+            if name == "addchild" and args:
+                recv.v.fields["children"].append(args[0].v if isinstance(args[0], fd.Const) else args[0])
+                return [(fd.Const(True), None)]
+        if name and name.startswith("self."):
+            mn = name[5:]
+            if R.create is not None and mn == R.create.name:
+                counter[0] += 1
+                # building a filter registers the extensions it needs: a visible effect on the set
+                rq = st.env.get("%s.requires" % selfp)
+                if isinstance(rq, fd.Const) and isinstance(rq.v, list):
+                    rq.v.append("ext")
+                return [(fd.Const(cmd("IfCommand", "NEW", arguments={"test": cmd("AnyofCommand", "tNEW")})), None)]
+            if mn in m:
+                return fd.Inline(m[mn])
+        return None
+
+    keep = {}
+
+    def run(op, *argv, **kwv):
+        f = m[op]
+        own = f.params[1:]
+        start = kwv.pop("_after", None)
+        kwv_raw = kwv.pop("_raw", False)
+        env = {"%s.filters" % selfp: start if start is not None else fd.Const(fresh()), "%s.requires" % selfp: fd.Const(fd.MList())}
+        for p_, v in zip(own, argv):
+            env[p_] = v if isinstance(v, (fd.Const, fd.Unknown)) else fd.Const(v)
+        for k_, v in kwv.items():
+            env[k_] = v if isinstance(v, (fd.Const, fd.Unknown)) else fd.Const(v)
+        for p_ in own:
+            if p_ not in env:
+                d = f.defaults().get(p_)
+                cv = const_value(prog, f, d) if d is not None else TOP
+                env[p_] = fd.Const(cv) if cv is not TOP else fd.Unknown(p_)
+        it = fd.Interp(f.node, R.cls.name, oracle, loop_unroll=5, max_depth=4)
+        paths = it.run(env)
+        if len(paths) != 1:
+            return None
+        p = paths[0]
+        snap = snapshot(p.env.get("%s.filters" % selfp))
+        if snap is None:
+            return None
+        keep["last"] = p.env.get("%s.filters" % selfp)
+        rq_ = p.env.get("%s.requires" % selfp)
+        snap = snap + [("<requires>", tuple(rq_.v) if isinstance(rq_, fd.Const) and isinstance(rq_.v, list) else "?", None, None)]
+        if p.kind == "raise":
+            return ("raise", p.value if isinstance(p.value, str) else getattr(p.value, "name", str(p.value)), snap)
+        if kwv_raw:
+            v_ = p.value
+            return ("return", shape(v_.v) if isinstance(v_, fd.Const) and isinstance(v_.v, fd.Rec) else (v_.v if isinstance(v_, fd.Const) else None), snap)
+        t = fd.truth(p.value)
+        if t is None:
+            return None
+        return ("return", t, snap)
+
+    base0 = snapshot(fd.Const(fresh()))
+    A, B, C = base0
+    NOREQ, REQ = ("<requires>", (), None, None), ("<requires>", ("ext",), None, None)
+    base = base0 + [NOREQ]
+    ANY = object()
+    NEW = ("plain", "NEW")
+    problems = []
+
+    def expect(rule, op, desc, got, want_kind, want_val, want_set, witness):
+        if got is None:
+            raise _Undecided()
+        if not want_set or want_set[-1][0] != "<requires>":
+            # successful update / add registers what the new content needs; anything else leaves the requirements alone
+            built = op in ("updatefilter", "addfilter") and want_kind == "return" and want_val is not False
+            want_set = list(want_set) + [REQ if built else NOREQ]
+        kind, val, snap = got
+        if want_kind == "return" and want_val is ANY and kind == "return":
+            val = want_val
+        if (kind, val if kind == "return" else "x") != (want_kind, want_val if want_kind == "return" else "x") or snap != want_set:
+            def names(s_):
+                return [(n, "on" if en else "off", sh[0]) if n != "<requires>" else ("requires", en) for n, en, sh, _ in s_]
+            problems.append((rule, "%s:%s" % (op, desc), "%s(%s) %s and leaves %s; an ordered, uniquely named filter list %s and holds %s"
+                             % (op, desc, ("returns %r" % val) if kind == "return" else ("raises %s" % val), names(snap),
+                                ("returns %r" % want_val) if want_kind == "return" else "raises", names(want_set)), witness))
+
+    class _Undecided(Exception):
+        pass
+    old_heap = fd.State.heap
+    fd.State.heap = True
+    try:
+        # ---- movefilter
+        for nm, d, res, st_ in (("A", "up", False, base), ("A", "down", True, [B, A, C]), ("B", "up", True, [B, A, C]), ("B", "down", True, [A, C, B]),
+                                ("C", "up", True, [A, C, B]), ("C", "down", False, base), ("Z", "up", False, base), ("Z", "down", False, base)):
+            expect("O3", "movefilter", "%r, %r" % (nm, d), run("movefilter", nm, d), "return", res, st_,
+                   "moving a filter skips a position, wraps around the end of the list or leaves it in place")
+        # ---- removefilter
+        for nm, res, st_ in (("A", True, [B, C]), ("B", True, [A, C]), ("C", True, [A, B]), ("Z", False, base)):
+            expect("O4", "removefilter", repr(nm), run("removefilter", nm), "return", res, st_, "an operation on an unknown name modifies another filter")
+        # ---- disable / enable
+        A_off = ("A", False, ("wrapped", (A[2],)), A[3])
+        B_on = ("B", True, ("plain", "B0"), B[3])
+        for nm, res, st_ in (("A", True, [A_off, B, C]), ("B", False, base), ("Z", False, base)):
+            expect("O5", "disablefilter", repr(nm), run("disablefilter", nm), "return", res, st_, "flag and rendering disagree, or a filter is wrapped twice")
+        for nm, res, st_ in (("B", True, [A, B_on, C]), ("A", False, base), ("Z", False, base)):
+            expect("O5", "enablefilter", repr(nm), run("enablefilter", nm), "return", res, st_, "flag and rendering disagree, or an enabled filter loses its body")
+        # two filters disabled one after the other: each wrapper holds its own filter, and only that one
+        r1 = run("disablefilter", "A")
+        C_off = ("C", False, ("wrapped", (C[2],)), C[3])
+        if r1 is None:
+            raise _Undecided()
+        expect("O5", "disablefilter", "'A' then 'C'", run("disablefilter", "C", _after=keep["last"]), "return", True, [A_off, B, C_off],
+               "disable a, disable c: the second wrapper also holds (or replaces) the first filter")
+        r1 = run("disablefilter", "A")
+        if r1 is None:
+            raise _Undecided()
+        expect("O5", "enablefilter", "'A' after disablefilter('A')", run("enablefilter", "A", _after=keep["last"]), "return", True, base,
+               "a filter disabled and enabled again is not what it was")
+        # ---- addfilter: appended at the end, enabled; an existing name (given as text or as UTF-8 bytes) is refused
+        D = ("D", True, ("plain", "NEW"), None)
+        expect("O1", "addfilter", "'D'", run("addfilter", "D", fd.Unknown("conds"), fd.Unknown("acts")), "return", ANY, [A, B, C, D],
+               "a new filter is not appended at the end, enabled")
+        for nm in ("A", "B", b"A", b"C"):
+            expect("O1", "addfilter", repr(nm), run("addfilter", nm, fd.Unknown("conds"), fd.Unknown("acts")), "raise", "FilterAlreadyExists", base,
+                   "two filters with the same name; getfilter/removefilter then address only the first")
+        # ---- getters
+        for nm, want in (("A", ("plain", "A0")), ("B", ("plain", "B0")), ("C", ("plain", "C0")), ("Z", None)):
+            expect("O5", "getfilter", repr(nm), run("getfilter", nm, _raw=True), "return", want, base,
+                   "getfilter hands out the `if false` wrapper (or nothing) for a disabled filter")
+        for nm, want in (("A", False), ("B", True), ("C", False)):
+            expect("O5", "is_filter_disabled", repr(nm), run("is_filter_disabled", nm), "return", want, base, "the state reported differs from the rendering")
+        # ---- update / replace
+        newcmd = fd.Rec("IfCommand", tag="NEW", children=fd.MList(), arguments=fd.MDict({"test": fd.Rec("HeaderCommand", tag="tN", children=fd.MList(), arguments=fd.MDict())}))
+        for op, extra in (("updatefilter", lambda old, new: (old, new, fd.Unknown("conds"), fd.Unknown("acts"))),
+                          ("replacefilter", lambda old, new: (old, fd.Const(newcmd), new))):
+            expect("O2", op, "'A' -> 'A'", run(op, *extra("A", "A")), "return", True, [("A", True, NEW, A[3]), B, C],
+                   "an updated filter changes position, name or state")
+            expect("O2", op, "'A' -> 'A2'", run(op, *extra("A", "A2")), "return", True, [("A2", True, NEW, A[3]), B, C],
+                   "an updated filter changes position, name or state")
+            expect("O2", op, "'B' -> 'B'", run(op, *extra("B", "B")), "return", True, [A, ("B", False, ("wrapped", (NEW,)), B[3]), C],
+                   "a disabled filter becomes active in the rendered script while its flag still says disabled")
+            expect("O2", op, "'B' -> 'B2'", run(op, *extra("B", "B2")), "return", True, [A, ("B2", False, ("wrapped", (NEW,)), B[3]), C],
+                   "a disabled filter that is renamed while being updated loses its `if false` wrapper but keeps enabled=False")
+            expect("O1", op, "'A' -> 'C'", run(op, *extra("A", "C")), "raise", "FilterAlreadyExists", base,
+                   "two filters with the same name; or a refused rename that has already changed the set")
+            expect("O1", op, "'B' -> 'A'", run(op, *extra("B", "A")), "raise", "FilterAlreadyExists", base,
+                   "two filters with the same name; or a refused rename that has already changed the set")
+            expect("O1", op, "b'A' -> b'C'", run(op, *extra(b"A", b"C")), "raise", "FilterAlreadyExists", base,
+                   "a name given as bytes is tested undecoded but stored decoded: two filters end up with the same name")
+            expect("O4", op, "'Z' -> 'Z2'", run(op, *extra("Z", "Z2")), "return", False, base, "an operation on an unknown name modifies another filter")
+            expect("O4", op, "'Z' -> 'A'", run(op, *extra("Z", "A")), "return", False, base,
+                   "replacefilter('nosuch', content, newname='existing') raises instead of returning False")
+    except _Undecided:
+        problems = None
+    except fd.TooManyPaths:
+        problems = None
+    except AnalysisError:
+        raise
+    except Exception:
+        problems = None
+    finally:
+        fd.State.heap = old_heap
+    ctx._ops_eval = problems
+    return problems
